@@ -93,12 +93,12 @@ class Line(GeoBody):
         return hash(
             (
                 "Line",
-                round(dv[0], SIG_FIGURES),
-                round(dv[1], SIG_FIGURES),
-                round(dv[2], SIG_FIGURES),
-                round(foot[0], SIG_FIGURES),
-                round(foot[1], SIG_FIGURES),
-                round(foot[2], SIG_FIGURES),
+                round(dv[0], get_sig_figures()),
+                round(dv[1], get_sig_figures()),
+                round(dv[2], get_sig_figures()),
+                round(foot[0], get_sig_figures()),
+                round(foot[1], get_sig_figures()),
+                round(foot[2], get_sig_figures()),
             )
         )
 
